@@ -357,21 +357,18 @@ pub(crate) fn extract_code_block_start(line: &str) -> Option<(&str, &str, &str)>
         return None;
     }
 
-    // .. and what follows them cannot contain backticks (otherwise it is
-    // inline code at the start of a line of text)
+    // .. and the language that follows them cannot contain backticks
+    // (otherwise it is inline code at the start of a line of text)
     let (backticks, info) = line.split_at(language_start);
-    if info.contains('`') {
+    let (language, config) = match info.find('{') {
+        Some(config_start) => (info[..config_start].trim_end(), &info[config_start..]),
+        None => (info, ""),
+    };
+    if language.contains('`') {
         return None;
     }
 
-    match info.find('{') {
-        Some(config_start) => Some((
-            backticks,
-            info[..config_start].trim_end(),
-            &info[config_start..],
-        )),
-        None => Some((backticks, info, "")),
-    }
+    Some((backticks, language, config))
 }
 
 pub(crate) trait NumberedLines {
